@@ -442,6 +442,25 @@ def stamp_static():
     return p
 
 
+def stamp_layers():
+    """two checksummed layers under two plain ones: r2 -> r1 -> top (checksummed, constant content) -> mid (checksummed) -> s, u.
+    After an edit of s the uncertainty about mid is resolved out of band, but the re-decision of r2 then meets the next
+    uncertain layer (top) with out-of-band builds switched off (REDO_NO_OOB) and runs r2's script although r1 turns out
+    unchanged: a known finding (C02 / C03), kept as a program so that everything else about it stays checked"""
+    return {
+        'name': 'stamp_layers',
+        'plain': ['s', 'u', 'mid', 'top', 'r1', 'r2'],
+        'rules': {'mid.do': [{'mid': [ifchange('s', 'u'), out('stdout', 's'), stamp()]}],
+                  'top.do': [{'top': [ifchange('mid'), out('stdout', tag=7), stamp()]}],
+                  'r1.do': [{'r1': [ifchange('top'), out('stdout', 'top')]}],
+                  'r2.do': [{'r2': [ifchange('r1'), out('stdout', 'r1')]}]},
+        'init': ['s', 'u', 'mid.do', 'top.do', 'r1.do', 'r2.do'],
+        'cmds': [('ifchange', ['r2'], False)],
+        'user': ['s', 'u'], 'rm': [], 'doedits': [],
+        'bounds': (4, 3),
+    }
+
+
 def stamp_toggle():
     """a target that is checksummed, then plain, then checksummed again with the old content"""
     return {
@@ -994,7 +1013,7 @@ def crash_family(window=False, stamp_window=False):
     return out_
 
 
-FAMILY_DEEP = [stamp_static, stamp_override, override_rm_q, stamp_diamond, stamp_chain2, override3, subdirs_cwd, alias_prog, fail_kinds, ifcreate_link, symlink_prog, symlink_stamped, nodir_prog, always2, fail_diamond, override2, stamp_toggle, stamped_deep, ifcreate_deep, do_recreate, subdirs, fan_shared, fail_memo]
+FAMILY_DEEP = [stamp_layers, stamp_static, stamp_override, override_rm_q, stamp_diamond, stamp_chain2, override3, subdirs_cwd, alias_prog, fail_kinds, ifcreate_link, symlink_prog, symlink_stamped, nodir_prog, always2, fail_diamond, override2, stamp_toggle, stamped_deep, ifcreate_deep, do_recreate, subdirs, fan_shared, fail_memo]
 
 
 def deep_programs():
